@@ -93,6 +93,8 @@ func init() {
 	reg(&spec{ID: "C19", Pkg: "./harness/c19", Level: "model_checking", Wasm: true, ShardsQ: 8, ShardsT: n, DeadQ: 240, DeadT: 2400})
 	reg(&spec{ID: "C20", Pkg: "./harness/c20", Level: "model_checking", ShardsQ: n, ShardsT: n, DeadQ: 240, DeadT: 1800})
 	reg(&spec{ID: "C16", Pkg: "./harness/c16", Level: "exploration", ShardsQ: n, ShardsT: n, DeadQ: 150, DeadT: 1500})
+	specs["C02"].Extra = []*spec{{ID: "C02", Pkg: "./harness/conc", Level: "exploration", ShardsQ: 5, ShardsT: 5, DeadQ: 240, DeadT: 2400, Args: []string{"-prop", "C02"}, InstrFiles: sinstr}}
+	specs["C11"].Extra = []*spec{{ID: "C11", Pkg: "./harness/conc", Level: "exploration", ShardsQ: 4, ShardsT: 4, DeadQ: 240, DeadT: 2400, Args: []string{"-prop", "C11"}, InstrFiles: sinstr}}
 	specs["C04"].Extra = []*spec{{ID: "C04", Pkg: "./harness/conc", Level: "model_checking", ShardsQ: n, ShardsT: n, DeadQ: 240, DeadT: 2400, Args: []string{"-prop", "C04"}, InstrFiles: sinstr}}
 }
 
@@ -684,6 +686,10 @@ func raceReports(id, stderr string) []hc.Violation {
 						site = f
 					} else if strings.HasPrefix(l, "github.com/gdamore/tcell/v2/terminfo.") {
 						site = "terminfo." + strings.TrimSuffix(strings.TrimPrefix(l, "github.com/gdamore/tcell/v2/terminfo."), "()")
+					} else if !(strings.HasPrefix(l, "main.") || strings.HasPrefix(l, "verif/") || strings.Contains(l, "/verifrt.") || strings.Contains(l, "/vsync.") || strings.Contains(l, "/vtime.") || strings.HasPrefix(l, "github.com/gdamore/tcell/v2.Verif")) {
+						// an access inside a library the screen calls (x/text encoder, bytes.Buffer,
+						// runewidth ...): the tcell function that made the call decides
+						continue
 					}
 					break
 				}
